@@ -544,7 +544,7 @@ static void scenario_round2(struct T *t, int round) {
 static void prepare_handoff(struct T *t) {
     char p[600];
     snprintf(p, sizeof(p), "%s/hand.zck", t->dir);
-    size_t n = 60000 + (nxt(t) % 90000);
+    size_t n = 700000 + (nxt(t) % 300000);
     char *A = gen_content(t, n, 77);
     int rc = write_file(t, p, A, n, ZCK_COMP_ZSTD, t->k % 2, 0);
     t->hand_want = fnv(A, n, 1469598103934665603ULL);
@@ -552,18 +552,22 @@ static void prepare_handoff(struct T *t) {
     free(A);
     t->hand_fd = open(p, O_RDONLY);
     t->hand = zck_create();
-    t->hand_ok = rc && t->hand && t->hand_fd >= 0 && zck_init_read(t->hand, t->hand_fd);
+    t->hand_ok = rc == 0 && t->hand && t->hand_fd >= 0 && zck_init_read(t->hand, t->hand_fd);
 }
 
+static pthread_barrier_t hand_barrier;
+static int hand_barrier_on = 0;
 static void use_handoff(struct T *t) {
     if(!t->hand) return;
+    /* all workers start on their handed-over contexts together */
+    if(hand_barrier_on) pthread_barrier_wait(&hand_barrier);
     int ok = t->hand_ok;
     uint64_t h = 1469598103934665603ULL;
     size_t total = 0;
     if(ok) {
-        char buf[5003];
+        char buf[1009];
         ssize_t r;
-        while((r = zck_read(t->hand, buf, sizeof(buf))) > 0) { h = fnv(buf, r, h); total += r; }
+        while((r = zck_read(t->hand, buf, sizeof(buf))) > 0) { h = fnv(buf, r, h); total += r; if((total / 1009) % 64 == 0) sched_yield(); }
         ok = (r == 0) && zck_close(t->hand);
     }
     L(t, "r0 handoff ok=%d total=%zu fnv=%016llx want=%016llx", ok, total, (unsigned long long)h, (unsigned long long)t->hand_want);
@@ -613,6 +617,8 @@ int main(int argc, char **argv) {
     }
     for(int k = 0; k < nthreads; k++) prepare_handoff(&ts[k]);
     if(par) {
+        pthread_barrier_init(&hand_barrier, NULL, nthreads);
+        hand_barrier_on = 1;
         for(int k = 0; k < nthreads; k++) pthread_create(&th[k], NULL, thread_main, &ts[k]);
         for(int k = 0; k < nthreads; k++) pthread_join(th[k], NULL);
     } else {
